@@ -78,6 +78,8 @@ def run(ctx):
             t = [x['type'] for x in alld if x['name'] == nm][0]
             data[nm] = ctx.rng.choice(NEWVALS[t])
         if ctx.rng.random() < 0.5: data['no-such-field'] = 'zzz'
+        strs = [x['name'] for x in alld if x['type'] == 'string' and x['value'] != '']
+        if strs and i % 3 == 0: data[strs[i % len(strs)]] = ''          # blanking a field is an update like any other
         before = bytes(src)
         out = io.BytesIO()
         try:
